@@ -167,10 +167,18 @@ impl ProtoFmt for ProposalJustification {
 
     fn read(r: &Self::Proto) -> anyhow::Result<Self> {
         use proto::proposal_justification_v2::T;
-        Ok(match r.t.as_ref().context("missing")? {
+        let this = match r.t.as_ref().context("missing")? {
             T::CommitQc(r) => Self::Commit(ProtoFmt::read(r).context("Commit")?),
             T::TimeoutQc(r) => Self::Timeout(ProtoFmt::read(r).context("Timeout")?),
-        })
+        };
+        // The justification is for the view following the view of the QC, and `view()`
+        // is evaluated on messages which have not been verified yet.
+        let qc_view = match &this {
+            Self::Commit(qc) => qc.view().number,
+            Self::Timeout(qc) => qc.view.number,
+        };
+        anyhow::ensure!(qc_view.0 < u64::MAX, "view number overflow");
+        Ok(this)
     }
 
     fn build(&self) -> Self::Proto {
